@@ -16,6 +16,10 @@ import (
 )
 
 // OnRecvPacket will get the denom name from ibc ,generate by port/channel/denom
+// and convert the received vouchers to the registered ERC20 token.
+// The conversion is best effort: its outcome is reported by an EventIBCAggregate event only.
+// The acknowledgement of the wrapped transfer application is always returned unchanged,
+// otherwise IBC core would not write any acknowledgement for the packet.
 func (k Keeper) OnRecvPacket(
 	ctx sdk.Context,
 	packet channeltypes.Packet,
@@ -35,14 +39,14 @@ func (k Keeper) OnRecvPacket(
 		event.Status = types.STATUS_FAILED
 		event.Message = err.Error()
 		_ = teletypes.EmitTypedEvent(ctx, event)
-		return nil
+		return ack
 	}
 	transferAmount, ok := sdk.NewIntFromString(data.Amount)
 	if !ok {
 		event.Status = types.STATUS_FAILED
 		event.Message = "Change data.Amount type to int error"
 		_ = teletypes.EmitTypedEvent(ctx, event)
-		return nil
+		return ack
 	}
 	receiver, _ := sdk.AccAddressFromBech32(data.Receiver)
 	denom, err := types.IBCDenom(packet.GetDestPort(), packet.GetDestChannel(), data.Denom)
@@ -50,14 +54,14 @@ func (k Keeper) OnRecvPacket(
 		event.Status = types.STATUS_FAILED
 		event.Message = err.Error()
 		_ = teletypes.EmitTypedEvent(ctx, event)
-		return nil
+		return ack
 	}
 
 	if !k.IsDenomRegistered(ctx, denom) {
 		event.Status = types.STATUS_FAILED
 		event.Message = fmt.Sprintf("denom %s not registered", denom)
 		_ = teletypes.EmitTypedEvent(ctx, event)
-		return nil
+		return ack
 	}
 	msg := types.NewMsgConvertCoin(
 		sdk.NewCoin(denom, transferAmount),
@@ -71,14 +75,14 @@ func (k Keeper) OnRecvPacket(
 		event.Status = types.STATUS_FAILED
 		event.Message = err.Error()
 		_ = teletypes.EmitTypedEvent(ctx, event)
-		return nil
+		return ack
 	}
 
 	write()
 	ctx.EventManager().EmitEvents(cctx.EventManager().Events())
 	event.Status = types.STATUS_SUCCESS
 	_ = teletypes.EmitTypedEvent(ctx, event)
-	return nil
+	return ack
 }
 
 func (k Keeper) OnAcknowledgementPacket(
